@@ -565,7 +565,7 @@ Lemma scan_loop_code (f : nat) (asm : bool) (rem out : string) (ins : bool) (st 
     match split_once """" s2 with
     | Some (lft, _) =>
         match find_close (S (String.length rem)) (string_drop (S (String.length lft)) rem) "" with
-        | None => ScanUnterminated
+        | None => ScanUnterminated (out ++ lft) ins st
         | Some (body, rest) =>
             scan_loop f asm rest (out ++ lft ++ "@" ++ string_of_N (sc_next_lit st) ++ "@") ins
                       (mkScan false (sc_next_lit st + 1) (body :: sc_lits st))
@@ -695,7 +695,8 @@ Definition st0 : scan_state := mkScan false 0 [].
     for the closing one because two backslashes precede it; "b" is left over as code and its
     quote opens a literal that never closes *)
 Example scan_backslash_quote_refuted :
-  scan_line false ("s = " ++ QQ ++ "a" ++ BS ++ BS ++ BS ++ QQ ++ "b" ++ QQ ++ ";" ++ nl) st0 = ScanUnterminated
+  scan_line false ("s = " ++ QQ ++ "a" ++ BS ++ BS ++ BS ++ QQ ++ "b" ++ QQ ++ ";" ++ nl) st0
+  = ScanUnterminated "s = @0@b" true (mkScan false 1 ["a" ++ BS ++ BS ++ BS])
   /\ c_decode ("a" ++ BS ++ BS ++ BS ++ QQ ++ "b") = Some ("a" ++ BS ++ QQ ++ "b")
   /\ scannableb ("a" ++ BS ++ BS ++ BS ++ QQ ++ "b") = false
   /\ find_close 20 ("a" ++ BS ++ BS ++ BS ++ QQ ++ "b" ++ QQ ++ ";") "" = Some ("a" ++ BS ++ BS ++ BS, "b" ++ QQ ++ ";").
@@ -710,7 +711,7 @@ Proof. vm_compute. reflexivity. Qed.
 
 (** the character constant that holds a double quote *)
 Example char_quote_refuted :
-  scan_line false ("c = '" ++ QQ ++ "';" ++ nl) st0 = ScanUnterminated.
+  scan_line false ("c = '" ++ QQ ++ "';" ++ nl) st0 = ScanUnterminated "c = '" true st0.
 Proof. vm_compute. reflexivity. Qed.
 
 (** what a literal may contain *)
